@@ -13,7 +13,8 @@ if not os.path.isdir(wt):
 else:
     subprocess.run(["git", "-C", wt, "reset", "-q", "--hard"]); subprocess.run(["git", "-C", wt, "clean", "-fdq"])
     subprocess.run(["git", "-C", wt, "checkout", "-q", "--detach", subprocess.run(["git", "-C", "/repo", "rev-parse", "HEAD"], capture_output=True, text=True).stdout.strip()], check=True)
-subprocess.run(["rsync", "-a", "--delete", "--exclude", ".work/broker-*", "--exclude", "replays", "--exclude", ".git", "/verif/", vcopy + "/"], check=True)
+rc = subprocess.run(["rsync", "-a", "--delete", "--exclude", ".work/broker-*", "--exclude", ".work/eval-*", "--exclude", ".work/gen-*", "--exclude", "replays", "--exclude", ".git", "/verif/", vcopy + "/"]).returncode
+assert rc in (0, 24), rc   # 24: scratch files of a running check vanished meanwhile
 os.makedirs(vcopy + "/replays", exist_ok=True)
 env = dict(os.environ, VERIF_REPO=wt, GOFLAGS="-mod=mod", GOPROXY="off", GOSUMDB="off", GOTOOLCHAIN="local")
 for d in dirs:
